@@ -380,8 +380,8 @@ def make_cases(tier, rnd):
             cases.append(dict(fn="add_div_mod", widths=[n, n], big_endian=be, host="fresh" if n > 4 else rnd.choice(hosts), heavy=n >= 10))
         if n <= 8:
             cases.append(dict(fn="add_div_mod", gen="generate_div_mod", widths=[n, n], big_endian=bool(n % 2)))
-    for n in range(1, (24 if thorough else 16) + 1):
-        cases.append(dict(fn="add_sqrt", widths=[n], big_endian=bool(n % 2), host="fresh" if n > 6 else rnd.choice(hosts)))
+    for n in list(range(1, (24 if thorough else 16) + 1)) + ([28, 32] if thorough else []):
+        cases.append(dict(fn="add_sqrt", widths=[n], big_endian=bool(n % 2), host="fresh" if n > 6 else rnd.choice(hosts), heavy=n >= 26))
         if n % 3 == 1:
             cases.append(dict(fn="add_sqrt", gen="generate_sqrt", widths=[n], big_endian=bool((n + 1) % 2)))
     for n in range(1, (8 if thorough else 6) + 1):
@@ -451,7 +451,7 @@ def run(rep, tier, seed, only=None):
                      "sqrt.add_sqrt/generate_sqrt", "equality.add_equal/generate_equal",
                      "generation.add_plus_one/add_if_then_else/add_pairwise_if_then_else/add_pairwise_xor and generate_* forms"]
     rep.bounds = {"sub/compare": "all widths <=6 (quick, half of the larger pairs) / <=10 (thorough), both endiannesses; spot 32..128", "div_mod": "monolithic n<=9 (quick) / <=12 (thorough)",
-                  "sqrt": "n<=16 / <=24", "equality": "n<=6 / <=8, every 0<=num<=2^(n+1) for small n", "plus_one": "inp_len,out_len<=6 / <=10, add_outputs both, default result labels",
+                  "sqrt": "n<=16 (quick) / <=24, 28, 32 (thorough; 40 does not finish in 300 s)", "equality": "n<=6 / <=8, every 0<=num<=2^(n+1) for small n", "plus_one": "inp_len,out_len<=6 / <=10, add_outputs both, default result labels",
                   "gadgets": "n in {1,2,4}, named/unnamed results, add_outputs both, three host kinds"}
     rep.outside = ["negative num for the equality gadget (undocumented domain)", "width 0", "widths above the listed ones"]
     rep.rule = "case = (generator, widths, endianness, constant/options, host kind); operand values quantified by z3"
